@@ -48,6 +48,9 @@ import Driver.Util
   directive, arguments joined by `+`, `_` = space, `~` = empty argument, `!` = no argument; every
   directive goes through `parseAction`: one refused ⇒ output `load=refused`; an accepted directive
   whose action is not its slot's ⇒ `bad-op`.
+  Round 9: target kind `q<n|r>` in a `run` op = a REAL queue in front of the recording target (see
+  `parseTgtRun`); last token `w=<from>/<answer>/<answer>/<align>` = the DNS world of the DMARC part:
+  the op's dmarc field has to be `discover` of that world (else `bad-op`).
 `apply <raw> <act>` → the result of FailAction.Apply and what the runner does with it
 `act <directive>` → `refused`, or `ok q= r= ovr=<code>/<enhanced>/<text>|- eff=<c>,<s>,<r>,<b>`: the parsed
   FailAction and what a check failing with it does at each of the four stages (one-check pipeline)
@@ -135,6 +138,17 @@ def parseTgt (s : String) : Option Tgt :=
   | [a, b] =>
     if (a == 'a' || a == 'p') && (b == 'n' || b == 'r') then some ⟨a == 'p', b == 'r'⟩ else none
   | _ => none
+
+/-- Target list of a `run` op: in addition `q<n|r>` = a REAL `target.queue` in front of the recording
+target (which refuses quarantined messages: `r`).  To the pipeline a queue is an atomic target that
+takes every message; it keeps the `*MsgMetadata` it was started with and shows it to its own target
+when it makes the delivery attempt - after the pipeline's `applyResults` -, so the hand-over the
+target behind the queue sees is the pipeline's hand-over to the queue, flag included (`del=` lists
+it whatever the target behind the queue answers). -/
+def parseTgtRun (s : String) : Option Tgt :=
+  match s.toList with
+  | ['q', b] => if b == 'n' || b == 'r' then some ⟨false, false⟩ else none
+  | _ => parseTgt s
 
 /-- Target list of a `nest` op: `px` is the nested pipeline (a `PartialDelivery` that accepts
 every recipient), the outer pipeline's own targets must be of kind `n`. -/
@@ -426,13 +440,44 @@ def parseDirs (tok : String) : Option Bool :=
     pure (ps.all (fun p => p.1.isSome))
   | _ => none
 
-/-- The trailing tokens of a `run` op: `[Q] [m=…] [f=…] [nm=…] [d=…]`. -/
+def pol? : Char → Option Pol
+  | 'n' => some .nothing | 'q' => some .quarantine | 'r' => some .reject | _ => none
+
+def txt? (s : String) : Option Txt :=
+  match s.toList with
+  | ['x'] => some .stray
+  | ['y'] => some .stray
+  | [a, b] => do
+    let p ← pol? a
+    let sp ← if b == '-' then some none else (pol? b).map some
+    pure (.policy p sp)
+  | _ => none
+
+def ans? (s : String) : Option Ans :=
+  if s == "-" then some .nx else if s == "0" then some (.recs []) else if s == "T" then some .temp
+  else ((s.splitOn ".").mapM txt?).map Ans.recs
+
+/-- The `w=` token: `w=<o|s|d>/<answer at the From name|=>/<answer at the organizational name>/<f|m|a>`
+(see the harness): the DNS world of the DMARC part. -/
+def parseWorld (tok : String) : Option World :=
+  if !tok.startsWith "w=" then none else
+  match (tok.drop 2).toString.splitOn "/" with
+  | [f, a, o, al] => do
+    let fromIsOrg ← if f == "o" then some true else if f == "s" || f == "d" then some false else none
+    let atFrom ← if fromIsOrg then (if a == "=" then some Ans.nx else none) else ans? a
+    let atOrg ← ans? o
+    let aligned ← if al == "a" then some true else if al == "f" || al == "m" then some false else none
+    pure ⟨fromIsOrg, atFrom, atOrg, aligned⟩
+  | _ => none
+
+/-- The trailing tokens of a `run` op: `[Q] [m=…] [f=…] [nm=…] [d=…] [w=…]`. -/
 structure RunFlags where
   q0 : Bool
   mf : MFaults
   nmG : Bool
   nmS : Bool
   loads : Bool
+  world : Option World
 
 def takeFlags (fl : List String) : Option RunFlags := do
   let (q0, fl) := match fl with
@@ -452,8 +497,11 @@ def takeFlags (fl : List String) : Option RunFlags := do
   let (loads, fl) ← match fl with
     | x :: r => if x.startsWith "d=" then (parseDirs x).map (fun l => (l, r)) else some (true, fl)
     | [] => some (true, fl)
+  let (world, fl) ← match fl with
+    | x :: r => if x.startsWith "w=" then (parseWorld x).map (fun w => (some w, r)) else some (none, fl)
+    | [] => some (none, fl)
   if !fl.isEmpty then none else
-  pure ⟨q0, mf, nm.contains 'g', nm.contains 's', loads⟩
+  pure ⟨q0, mf, nm.contains 'g', nm.contains 's', loads, world⟩
 
 /-- What a check failing with the parsed action does at stage number `st` (0 connection, 1 sender,
 2 recipient, 3 body): the model run on a one-check pipeline. -/
@@ -483,8 +531,13 @@ def handle : List String → String
       let m ← if mode == "smtp" then some Mode.smtp else if mode == "lmtp" then some Mode.lmtp else none
       -- the sender form (`f=…`) is not an input of the model
       let fl ← takeFlags flag
-      let ts ← (tgts.splitOn ",").mapM parseTgt
+      let ts ← (tgts.splitOn ",").mapM parseTgtRun
       let (cfg, n, rs, ord, _) ← parseCfg dm g s blocks scripts delays rcpts ts fl.q0 fl.mf fl.nmG fl.nmS
+      -- the DMARC outcome of the op is what policy discovery makes of the op's DNS world
+      let okW := match fl.world with
+        | some w => decide (discover w = cfg.dmarc)
+        | none => true
+      if !okW then none else
       if !fl.loads then pure "load=refused" else
       pure (showObs m cfg n (run ord cfg m (rs.map (fun p => p.1))))
     r.getD "bad-op"
